@@ -28,7 +28,7 @@ from bacpypes.apdu import UnconfirmedPrivateTransferRequest
 ID = 'C06'
 LEVEL = 'exploration'
 BUDGET = {'quick': 55, 'thorough': 780}
-SHRINK_LISTS = [('packets',)]
+SHRINK_LISTS = [('packets',), ('netnum',)]
 
 REPLY_BIT = 0x40000000
 
@@ -216,7 +216,7 @@ def execute(desc):
     w.run(until=5.0)           # router start-up announcements settle
     per_packet_frames = {}
     result = 'quiescent'
-    for group in desc['packets']:
+    for gi, group in enumerate(desc['packets']):
         f0 = w.frames
         for p in (group if isinstance(group, list) else [group]):
             if p['kind'] == 'raw':
@@ -233,6 +233,21 @@ def execute(desc):
             result = 'budget'
             break
         n = w.frames - f0
+        # network-number traffic between two packets: a station asks What-Is-Network-Number, a router announces
+        # Network-Number-Is on its ports; stations that did not know their network number learn it here
+        for act in desc.get('netnum', []):
+            if act['after'] != gi:
+                continue
+            if act['kind'] == 'winn':
+                st = stations[act['src']]
+                w.log('winn', act['src'])
+                st.nse.what_is_network_number(list(st.nsap.adapters.values())[0])
+            else:
+                w.log('nni', act['router'])
+                routers[act['router']].nse.network_number_is()
+            w.probe('netnum_' + act['kind'])
+            if w.run(until=w.now + 5.0) == 'budget':
+                result = 'budget'
         for p in (group if isinstance(group, list) else [group]):
             per_packet_frames[p['tok']] = n
     errors = list(errlog.records)
@@ -538,7 +553,15 @@ def gen_desc(seed, idx):
             q['tok'] = tok
             packets.append(q)
             i += 1
-    return {'prop': 'C06', 'seed': H(seed, 'C06run', idx) & 0x7fffffff, 'topo': topo, 'packets': packets,
+    netnum = []
+    if rng.random() < (0.5 if not topo['knows_net'] else 0.15):
+        plain = [s_['label'] for s_ in sts if s_.get('router') is None]
+        for k in range(rng.randint(1, 3)):
+            if rng.random() < 0.5:
+                netnum.append({'after': rng.randrange(len(packets)), 'kind': 'winn', 'src': rng.choice(plain)})
+            else:
+                netnum.append({'after': rng.randrange(len(packets)), 'kind': 'nni', 'router': rng.randrange(len(topo['routers']))})
+    return {'prop': 'C06', 'seed': H(seed, 'C06run', idx) & 0x7fffffff, 'topo': topo, 'packets': packets, 'netnum': netnum,
             'latency': rng.choice([0.0, 0.0, 0.001]), 'jitter': rng.choice([0.0, 0.0, 0.01, 0.5, 2.0]), 'settle': 60.0}
 
 
